@@ -74,6 +74,7 @@ func (e *Enc) loopEnv(li *loopInfo, pred *ssa.BasicBlock) *Env {
 	}
 	env.st = e.st
 	env.old = e.entry
+	e.currentParams(env, e.st)
 	h := li.header
 	for _, in := range h.Instrs {
 		if nx, ok := in.(*ssa.Next); ok {
@@ -1067,4 +1068,39 @@ func (e *Enc) cellOf(obj types.Object) *ssa.Alloc {
 		}
 	}
 	return nil
+}
+
+// currentParams: inside the body (loop invariants, assert clauses) the name of a parameter that lives in a cell
+// (address-taken or captured, hence assignable through the cell) denotes its current content; old(p) is its entry value.
+func (e *Enc) currentParams(env *Env, st *State) {
+	if e.fn == nil {
+		return
+	}
+	ov := map[string]TV{}
+	for k, v := range env.vars {
+		ov[k] = v
+	}
+	env.oldVars = ov
+	for i, p := range e.fn.Params {
+		obj, _ := p.Object().(*types.Var)
+		if obj == nil {
+			continue
+		}
+		cell := e.cellOf(obj)
+		if cell == nil {
+			continue
+		}
+		pl := e.placeOf(cell)
+		cur := TV{e.placeLoad(st, pl), e.sortOf(pl.T), pl.T}
+		env.vars[p.Name()] = cur
+		if e.ctr != nil {
+			names := e.ctr.Params
+			if e.ctr.RecvName != "" {
+				names = append([]string{e.ctr.RecvName}, names...)
+			}
+			if i < len(names) {
+				env.vars[names[i]] = cur
+			}
+		}
+	}
 }
